@@ -82,6 +82,30 @@ def oracle(chk):
         w = np.linalg.eigvalsh((K + K.T) / 2)
         if w.min() < -1e-8:
             bad.append(dict(what=f"{name}/psd-1d", observed=float(w.min()), expected=">= 0", X=np.asarray(X).tolist()))
+    # diagonal = dedicated diagonal evaluation, and symmetry, for EVERY kernel class (one-argument call kernel(X) vs diag kernel(X, X)),
+    # with non-default parameters, in 1 and 3 dimensions
+    from tinygp import transforms as tf
+    for dim in (1, 3):
+        Xd = rng.normal(size=(5, dim)) + 0.3
+        Xj = jnp.asarray(Xd)
+        zoo = [("Constant", kernels.Constant(jnp.asarray(1.7))), ("DotProduct", kernels.DotProduct()),
+               ("Polynomial(scale=0.6)", kernels.Polynomial(order=jnp.asarray(3.0), scale=jnp.asarray(0.6), sigma=jnp.asarray(0.8))),
+               ("Polynomial(scale=2.5)", kernels.Polynomial(order=jnp.asarray(2.0), scale=jnp.asarray(2.5), sigma=jnp.asarray(0.3))),
+               ("Sum", kernels.Matern32(jnp.asarray(0.8)) + 0.5 * kernels.DotProduct()),
+               ("Product", kernels.ExpSquared(jnp.asarray(1.3)) * kernels.Polynomial(order=jnp.asarray(2.0), scale=jnp.asarray(1.7))),
+               ("Linear", tf.Linear(jnp.asarray(0.7), kernels.Matern52(jnp.asarray(1.1)))),
+               ("Subspace", tf.Subspace(0, kernels.ExpSquared(jnp.asarray(0.9)))) if dim > 1 else ("Scaled", 2.0 * kernels.Exp(jnp.asarray(0.9)))]
+        for nm in prof:
+            ex = {"gamma": jnp.asarray(0.7)} if nm == "ExpSineSquared" else {"alpha": jnp.asarray(1.3)} if nm == "RationalQuadratic" else {}
+            zoo.append((f"{nm}/L2", getattr(kernels, nm)(scale=jnp.asarray(1.4), distance=D.L2Distance(), **ex)))
+        if dim == 1:
+            zoo += [("qs.Matern52", qs.Matern52(jnp.asarray(1.2), jnp.asarray(0.7))), ("qs.SHO", qs.SHO(jnp.asarray(1.1), jnp.asarray(2.0), jnp.asarray(0.6))),
+                    ("qs.Sum*", (qs.Exp(jnp.asarray(0.8)) + qs.Cosine(jnp.asarray(2.0))) * qs.Matern32(jnp.asarray(1.5)))]
+        for nm, k in zoo:
+            Xa = jnp.asarray(np.sort(Xd[:, 0])) if nm.startswith("qs.") else Xj
+            Kf = np.asarray(k(Xa, Xa))
+            chk_val(f"{nm}/diag[{dim}d]", np.asarray(k(Xa)), np.diag(Kf), kernel=nm, X=Xd.tolist())
+            chk_val(f"{nm}/symmetric[{dim}d]", Kf, Kf.T, kernel=nm, X=Xd.tolist())
     # constant, dot product, polynomial
     for rep in range(reps):
         d = int(rng.integers(1, 4))
